@@ -32,6 +32,8 @@ def main():
   results = []
   for case in json.load(open(cases_path)):
     args = decode(case)
+    if len(args) != len(params):
+      raise SystemExit('harness bug: %s takes %d args, path model has %d' % (fname, len(params), len(args)))
     # coerce to the declared parameter types (a peeked real may arrive as int where float is declared)
     for i, p in enumerate(params[:len(args)]):
       if p.annotation is float and isinstance(args[i], int) and not isinstance(args[i], bool):
